@@ -321,6 +321,10 @@ func StructTypeField(tpe ast.BaseTerm, field ast.Constant) (ast.BaseTerm, error)
 		src, _ := UnionTypeArgs(tpe)
 		alternatives := []ast.BaseTerm{}
 		for _, s := range src {
+			if _, isVar := s.(ast.Variable); isVar || s.Equals(ast.AnyBound) {
+				// Nothing is known about this alternative: it may be a struct with any field type.
+				return ast.AnyBound, nil
+			}
 			projected, err := StructTypeField(s, field)
 			if err != nil {
 				continue
